@@ -50,6 +50,8 @@ def atoms_of_cond(c, taken):
     if c.get("k") == "bin" and c["op"] in ("!=", "=="):
         op = c["op"] if taken else ("==" if c["op"] == "!=" else "!=")
         out.append((op, c["l"], c["r"]))
+    if c.get("k") == "bin" and c["op"] in ("<", ">") and taken:
+        out.append(("!=", c["l"], c["r"]))      # strictly ordered positions are different positions
     return out
 
 
@@ -58,6 +60,8 @@ class Scan:
         self.f = f
         self.pairs = range_pairs(f)
         self.arith = set()
+        self.dec = set()
+        self.dec_only_ends = set()
         self.leading = set()
         self._find_leading_and_arith()
 
@@ -65,11 +69,17 @@ class Scan:
         f = self.f
         for x in astx.all_exprs(f):
             if x.get("k") == "call" and astx.callee(x)[0] in ARITH_FUNCS:
+                if astx.callee(x)[0] == "distance" and len(x["a"]) == 2 and ref_name(x["a"][0]) and ref_name(x["a"][1]) and \
+                        self.pairs.get(ref_name(x["a"][0])) == ref_name(x["a"][1]):
+                    continue        # distance(first, last) of a whole range only measures it: the cursor stays a plain scan cursor
                 for a in x["a"]:
                     n = ref_name(a)
                     if n:
                         self.arith.add(n)
             if x.get("k") == "bin" and x["op"] in ("+", "-", "+=", "-=", "<", ">", "<=", ">="):
+                ln, rn = ref_name(x["l"]), ref_name(x["r"])
+                if x["op"] in ("<", ">") and ln and rn and (self.pairs.get(ln) == rn or self.pairs.get(rn) == ln):
+                    continue        # `first < last` of a cursor and its own end is an end test like `first != last`
                 for s in (x["l"], x["r"]):
                     n = ref_name(s)
                     if n and (n in self.pairs or n in self.pairs.values()):
@@ -78,6 +88,15 @@ class Scan:
                 n = ref_name(x["e"])
                 if n:
                     self.arith.add(n)
+                    self.dec.add(n)
+        # a range end that is only ever stepped downwards (`--last` of two converging cursors) still bounds its begin cursor
+        others = set()
+        for x in astx.all_exprs(f):
+            if x.get("k") == "call" and astx.callee(x)[0] in ARITH_FUNCS and astx.callee(x)[0] != "distance":
+                others |= set(ref_name(a) for a in x["a"] if ref_name(a))
+            if x.get("k") == "bin" and x["op"] in ("+", "-", "+=", "-="):
+                others |= set(ref_name(t) for t in (x["l"], x["r"]) if ref_name(t))
+        self.dec_only_ends = set(n for n in self.dec if n not in others and n in self.pairs.values())
         for s in astx.walk_stmts(f["body"]):
             if s.get("k") in ("for", "while", "do") and s.get("c") is not None:
                 for op, l, r in atoms_of_cond(s["c"], True):
@@ -92,6 +111,14 @@ class Scan:
                             self.leading.add((n, ref_name(b)))
 
 
+def _end_name(b):
+    """name of a range end in a comparison; `first != --last` compares with the end after stepping it down"""
+    b0 = astx.strip_casts(b)
+    if b0 is not None and b0.get("k") == "un" and b0["op"] == "--":
+        b0 = astx.strip_casts(b0["e"])
+    return ref_name(b0) if b0 is not None else None
+
+
 def check_scan(chk, f, rule="IT1"):
     sc = Scan(f)
     construct = astx.sig(f)
@@ -100,7 +127,7 @@ def check_scan(chk, f, rule="IT1"):
         leaders.setdefault(b, e)
     if not leaders:
         return None
-    tracked = dict((v, e) for v, e in leaders.items() if v not in sc.arith and e not in sc.arith)
+    tracked = dict((v, e) for v, e in leaders.items() if v not in sc.arith and (e not in sc.arith or e in sc.dec_only_ends))
     skipped = sorted(set(leaders) - set(tracked))
     if not tracked:
         return ("not-modelled", skipped)
@@ -163,7 +190,7 @@ def check_scan(chk, f, rule="IT1"):
                         if a0 is not None and a0.get("k") == "un" and a0["op"] == "++":
                             a0 = astx.strip_casts(a0["e"])
                         n = ref_name(a0) if a0 is not None else None
-                        bn = ref_name(b)
+                        bn = _end_name(b)
                         if n in checked and bn is not None and ends.get(n) == bn:
                             checked[n] = (op == "!=")
                 visit(e["r"])
@@ -174,6 +201,7 @@ def check_scan(chk, f, rule="IT1"):
                 return
             if k == "call":
                 nm = astx.callee(e)[0]
+                before = dict(checked)
                 for a in e["a"]:
                     visit(a)
                 fobj = e["f"]
@@ -181,8 +209,14 @@ def check_scan(chk, f, rule="IT1"):
                     visit(fobj.get("b"))
                 if nm in ("iter_swap",):
                     for a in e["a"]:
+                        a0 = astx.strip_casts(a)
                         n = ref_name(a)
-                        if n in checked and not checked[n] and bad is None:
+                        state = checked.get(n)
+                        if n is None and a0 is not None and a0.get("k") == "un" and a0["op"] == "++":
+                            n = ref_name(a0["e"])
+                            # `it++` hands over the position tested before the step, `++it` the one behind it
+                            state = before.get(n) if a0.get("postfix") else False
+                        if n in checked and not state and bad is None:
                             bad = (n, e, "passed to iter_swap")
                 return
             for c in astx.children(e):
@@ -199,7 +233,7 @@ def check_scan(chk, f, rule="IT1"):
                         if a0 is not None and a0.get("k") == "un" and a0["op"] == "++":
                             a0 = astx.strip_casts(a0["e"])
                         n = ref_name(a0) if a0 is not None else None
-                        bn = ref_name(b)
+                        bn = _end_name(b)
                         if n in checked and bn is not None and ends.get(n) == bn:
                             checked[n] = (op == "!=")
             elif ev[0] == "decl":
@@ -1467,8 +1501,6 @@ def check_run_state(f):
                 c = ref_name(x["e"])
                 if any(y.get("k") == "bin" and y["op"] == "=" and ref_name(y["l"]) == c and same(y["r"], inits[c]) for y in exprs):
                     counters.add(c)
-        if not counters:
-            continue
         holders = set()
         for st in astx.walk_stmts(s0.get("body")):
             if st.get("k") == "if" and st.get("c") is not None:
@@ -1478,6 +1510,8 @@ def check_run_state(f):
                         if any(y.get("k") == "bin" and y["op"] == "=" and ref_name(y["l"]) == h
                                for y in astx.walk_stmt_exprs(st.get("then"), into_lambdas=False)):
                             holders.add(h)
+        if not holders:
+            continue
         for c in sorted(counters):
             for h in sorted(holders):
                 if h == c:
@@ -1532,6 +1566,29 @@ def check_run_state(f):
                     msg = ("`%s` is captured only while it holds its initial value and is not re-initialised when `%s` is reset: after a "
                            "broken run the function returns the beginning of that earlier run" % (h, c))
                 out.append((s0, c, h, bad is None, msg))
+        # the converse coupling: a path that forgets the remembered start (resets the holder) ends the run, so it resets the
+        # counter as well -- otherwise matches are counted across interrupted runs
+        incs = set(ref_name(x["e"]) for x in exprs if x.get("k") == "un" and x["op"] == "++" and ref_name(x["e"]) in inits)
+        for h in sorted(holders):
+            for c in sorted(incs - {h}):
+                if c in counters:
+                    continue        # it has a reset: judged by the typestate above
+                for p in SP.paths(s0.get("body")):
+                    h_reset = c_touched = False
+                    for ev in p:
+                        src = ev[1]["init"] if ev[0] == "decl" and ev[1].get("init") is not None else (ev[1] if ev[0] == "expr" else None)
+                        if src is None:
+                            continue
+                        for x in astx.walk_expr(src, into_lambdas=False):
+                            if x.get("k") == "bin" and x["op"] == "=" and ref_name(x["l"]) == h and same(x["r"], inits[h]):
+                                h_reset = True
+                            if (x.get("k") == "bin" and x["op"] == "=" and ref_name(x["l"]) == c) or \
+                                    (x.get("k") == "un" and x["op"] == "++" and ref_name(x["e"]) == c):
+                                c_touched = True
+                    if h_reset and not c_touched:
+                        out.append((s0, c, h, False, "a path resets the remembered start `%s` but leaves the counter `%s` as it is: matches "
+                                    "are counted across interrupted runs" % (h, c)))
+                        break
     return out
 
 
@@ -2110,4 +2167,222 @@ def rawdiff_rule(chk, db, rule="RAWDIFF"):
             chk.violation(rule, label, "signed-distance", "%s: `%s` combines the two arguments in their own (possibly signed) type; for arguments "
                           "that are more than numeric_limits<Int>::max() apart this overflows" % (astx.loc(f, bad), astx.show(bad, 30)),
                           {"where": astx.loc(f)})
+    return n
+
+
+
+# ---- RETARG (generic): a helper's explicit arithmetic type argument is the caller's own result type ------------------------
+_ARITH = re.compile(r"^(unsigned|signed|int|long|short|char|float|double|long double|unsigned (int|long|long long|short|char)|long long|"
+                    r"(etl::)?u?int(8|16|32|64)_t|(etl::)?size_t)$")
+
+
+def retarg_area(chk, db, prefixes, rule="RETARG"):
+    """A function that returns an arithmetic type R and returns the result of a helper template called with exactly one explicit
+    arithmetic type argument (`sto_impl<long>(...)`, `to_unsigned_type<unsigned long>()`) passes R itself: with a narrower
+    argument the value is computed (and its overflow detected) in the narrower type and only then widened."""
+    n = 0
+
+    def canon(t):
+        t = t.replace("etl::", "").strip()
+        return {"unsigned": "unsigned int", "signed": "int", "long int": "long"}.get(t, t)
+    for f in db.funcs:
+        if f.get("body") is None or not any(f["file"].startswith(p) for p in prefixes):
+            continue
+        ret = (f.get("ret") or "").replace("const ", "").strip()
+        if not _ARITH.match(ret):
+            continue
+        inits = {}
+        for st in astx.walk_stmts(f["body"]):
+            if st.get("k") == "decl":
+                for v in st["vars"]:
+                    if "other" not in v and v.get("init") is not None:
+                        inits[v["n"]] = v["init"]
+        for st in [t for t in astx.walk_stmts(f["body"]) if t.get("k") == "return" and t.get("e") is not None]:
+            e = astx.strip_casts(st["e"])
+            # `auto const res = helper<X>(...); return res.value;`
+            hops = 0
+            while e is not None and e.get("k") in ("mem", "ref") and hops < 3:
+                base = astx.strip_casts(e.get("b")) if e.get("k") == "mem" else e
+                if base is not None and base.get("k") == "ref" and base.get("n") in inits:
+                    e = astx.strip_casts(inits[base["n"]])
+                else:
+                    break
+                hops += 1
+            if e is None or e.get("k") != "call":
+                continue
+            ta = (e["f"].get("targs") or "").strip()
+            if not ta or "," in ta or not _ARITH.match(ta):
+                continue
+            n += 1
+            construct = "%s :: `%s`" % (astx.sig(f), astx.show(e, 50))
+            chk.instance(rule)
+            ok = canon(ta) == canon(ret)
+            chk.obligation(rule, construct, ok)
+            if not ok:
+                chk.violation(rule, construct, "narrower-helper-type", "%s: %s returns `%s` but computes its value with `%s`" % (
+                    astx.loc(f, st), f["n"], ret, ta), {"where": astx.loc(f)})
+    return n
+
+
+# ---- SIBNAME: functions that differ only in the width of their result have the same body ------------------------------------
+SIBNAME_FAMILIES = [("strtol", "strtoll"), ("strtoul", "strtoull"), ("atoi", "atol", "atoll"), ("stoi", "stol", "stoll"),
+                    ("stoul", "stoull"), ("to_ulong", "to_ullong"), ("lrint", "llrint"), ("lround", "llround")]
+
+
+def sibname_area(chk, db, prefixes, rule="SIBNAME"):
+    """`strtol` / `strtoll`, `atoi` / `atol` / `atoll`, `stoi` / `stol` / `stoll`, `to_ulong` / `to_ullong` ... are one
+    function at several result widths: with type names and explicit template arguments erased, the bodies of the members of
+    such a name family (same file, same parameter list) are the same tree."""
+    from . import sibs as SB
+    n = 0
+    byname = {}
+    for f in db.funcs:
+        if f.get("body") is None or not any(f["file"].startswith(p) for p in prefixes):
+            continue
+        byname.setdefault(f["n"], []).append(f)
+    for fam in SIBNAME_FAMILIES:
+        members = []
+        for nm in fam:
+            members += byname.get(nm, [])
+        groups = {}
+        for g in members:
+            key = (tuple(p["n"] for p in g["params"]), g.get("record") or "")
+            groups.setdefault(key, []).append(g)
+        for key, grp in sorted(groups.items(), key=lambda kv: str(kv[0])):
+            if len(set(g["n"] for g in grp)) < 2:
+                continue
+            n += 1
+            construct = " / ".join("%s (%s:%s)" % (g["n"], g["file"], g["line"]) for g in grp)
+            chk.instance(rule)
+
+            def strip_names(x):
+                if isinstance(x, list):
+                    return [strip_names(y) for y in x]
+                if not isinstance(x, dict):
+                    return x
+                out = {}
+                for k, v in x.items():
+                    if k == "ty":
+                        continue
+                    if k == "n" and isinstance(v, str) and v in fam:
+                        out[k] = "<self>"
+                        continue
+                    out[k] = strip_names(v)
+                return out
+            ns = [(g, strip_names(SB.norm(g["body"]))) for g in grp]
+            keys = [__import__("json").dumps(x, sort_keys=True) for _g, x in ns]
+            ref_i = max(range(len(keys)), key=lambda i: (keys.count(keys[i]), -i))
+            diff = None
+            for i, (g, x) in enumerate(ns):
+                if keys[i] != keys[ref_i]:
+                    pth, a, b = SB.first_diff(ns[ref_i][1], x)
+                    diff = (ns[ref_i][0], g, a, b)
+                    break
+            chk.obligation(rule, construct, diff is None, evaluations=len(grp))
+            if diff:
+                rg, g, a, b = diff
+                chk.violation(rule, construct, "width-siblings-disagree", "%s: %s computes `%s` where %s (line %s) computes `%s`; the two differ "
+                              "only in the width of their result" % (astx.loc(g), g["n"], SB.show(b), rg["n"], rg["line"], SB.show(a)),
+                              {"where": astx.loc(g)})
+    return n
+
+
+# ---- COPYMOD: an operator that returns a modified copy reads the object it copies ------------------------------------------
+def copymod_area(chk, db, prefixes, rule="COPYMOD"):
+    """A const member operator that returns its own class by value (`operator~`, unary `operator-`, `operator<<`, `operator+`
+    with one operand ...) builds that value from `*this`: the body mentions `*this`, `this` or a data member. A result that
+    never reads the object (`bitset().flip()` for `bitset(*this).flip()`) is the same for every operand."""
+    n = 0
+    for f in db.funcs:
+        if f.get("body") is None or f.get("kind") != "method" or not f["n"].startswith("operator") or f.get("static"):
+            continue
+        if not any(f["file"].startswith(p) for p in prefixes) or not f.get("record"):
+            continue
+        ret = (f.get("ret") or "").replace("const ", "").strip()
+        rec_base = f["record"].split("::")[-1].split("<")[0]
+        if not ret or "&" in ret or ret.split("<")[0].split("::")[-1] != rec_base:
+            continue
+        rec = db.record(f["record"])
+        fields = set(fd["n"] for fd in (rec or {}).get("fields", []))
+        n += 1
+        construct = astx.sig(f)
+        chk.instance(rule)
+        reads = False
+        for x in astx.all_exprs(f, into_lambdas=True):
+            if x.get("k") == "this":
+                reads = True
+            if x.get("k") == "mem" and x.get("n") in fields:
+                reads = True
+            if x.get("k") == "call" and astx.callee(x)[3] == "member" and (astx.callee(x)[2] is None or astx.is_this(astx.strip_casts(astx.callee(x)[2]))):
+                reads = True
+        chk.obligation(rule, construct, reads)
+        if not reads:
+            chk.violation(rule, construct, "operand-ignored", "%s: %s returns a %s that is built without reading the object it is applied to" % (
+                astx.loc(f), f["n"], rec_base), {"where": astx.loc(f)})
+    return n
+
+
+# ---- IDXLOOP: an index loop over the object's own elements stops before size() ---------------------------------------------
+def index_loop_area(chk, db, prefixes, rule="IDXLOOP"):
+    """`for (i = start; i < size(); ++i) ... unsafe_at(i) / (*this)[i] / data()[i]`: a loop that steps an index upwards by one
+    and reads the object's own element at that index has the strict bound `i < size()` (or `i != size()`); `i <= size()` reads
+    the element one past the last. Loops with another bound expression are not instances."""
+    n = 0
+    for f in db.funcs:
+        if f.get("body") is None or f.get("kind") != "method" or not any(f["file"].startswith(p) for p in prefixes):
+            continue
+        for lp in [st for st in astx.walk_stmts(f["body"]) if st.get("k") == "for" and st.get("c") is not None]:
+            name = None
+            if lp.get("init") is not None and lp["init"].get("k") == "decl":
+                for v in lp["init"]["vars"]:
+                    name = v["n"]
+            if name is None:
+                continue
+            inc = lp.get("inc")
+            if inc is None or not any(x.get("k") == "un" and x["op"] == "++" and ref_name(x["e"]) == name for x in astx.walk_expr(inc)):
+                continue
+            reads = False
+            for x in astx.walk_stmt_exprs(lp.get("body"), into_lambdas=True):
+                if x.get("k") == "call" and astx.callee(x)[0] in ("unsafe_at", "at") and len(x["a"]) == 1 and ref_name(x["a"][0]) == name and \
+                        (astx.callee(x)[2] is None or astx.is_this(astx.strip_casts(astx.callee(x)[2]))):
+                    reads = True
+                if x.get("k") == "idx" and ref_name(x["i"]) == name:
+                    b = astx.strip_casts(x["b"])
+                    if b is not None and ((b.get("k") == "mem" and astx.is_this(b.get("b"))) or
+                                          (b.get("k") == "un" and b["op"] == "*" and astx.is_this(astx.strip_casts(b["e"]))) or
+                                          (b.get("k") == "call" and astx.callee(b)[0] in ("data", "begin") and not b["a"])):
+                        reads = True
+            if not reads:
+                continue
+            strict = loose = False
+            todo = [lp["c"]]
+            while todo:
+                y = astx.strip_casts(todo.pop())
+                if y is None:
+                    continue
+                if y.get("k") == "bin" and y["op"] == "&&":
+                    todo += [y["l"], y["r"]]
+                    continue
+                if y.get("k") == "bin" and y["op"] in ("<", "<=", "!=", ">", ">="):
+                    l, r, op = y["l"], y["r"], y["op"]
+                    if ref_name(r) == name:
+                        l, r, op = r, l, {"<": ">", "<=": ">=", ">": "<", ">=": "<=", "!=": "!="}[op]
+                    r0 = astx.strip_casts(r)
+                    own_size = r0 is not None and r0.get("k") == "call" and astx.callee(r0)[0] in ("size", "length") and not r0["a"] and \
+                        (astx.callee(r0)[2] is None or astx.is_this(astx.strip_casts(astx.callee(r0)[2])))
+                    if ref_name(l) == name and own_size:
+                        if op in ("<", "!="):
+                            strict = True
+                        elif op == "<=":
+                            loose = True
+            if not (strict or loose):
+                continue
+            n += 1
+            label = "%s :: index loop over `%s` at line %s" % (astx.sig(f), name, lp.get("line"))
+            chk.instance(rule)
+            ok = strict or not loose
+            chk.obligation(rule, label, ok)
+            if not ok:
+                chk.violation(rule, label, "index-reaches-size", "%s: the loop runs while `%s <= size()` and reads the element at `%s`: the element one "
+                              "past the last is read" % (astx.loc(f, lp), name, name), {"where": astx.loc(f)})
     return n
